@@ -177,6 +177,24 @@ def messageSetFile (ms : MsgSt) (dir name : Bytes) (fd : Option Handle) : Prog (
         pure ({ ms with path := p, name := n, fd := some h }, false)
       | none => pure ({ ms with path := p, name := n }, false)
 
+/-- The message's own flag set after a move between subdirectories: `S` gained new -> cur, lost cur -> new
+(`maildir_move` after a successful move, /repo commit 7589fcb). -/
+def adjustSeen (src dst : Subdir) (mf : MFlags) : MFlags :=
+  match src, dst with
+  | .new, .cur => (flagsSet mf 83).getD mf
+  | .cur, .new => (flagsClr mf 83).getD mf
+  | _, _ => mf
+
+/-- The end of a successful `maildir_move`: `message_set_file(msg, dst->md_path, dstname, -1)` and, if that succeeded, the
+seen-flag transition applied to the flags of the message itself (so that a later rewrite names the file correctly). -/
+def messageSetFileMoved (ms : MsgSt) (src dst : Subdir) (dir name : Bytes) : Prog (MsgSt × Bool) :=
+  match pathjoin PATH_MAX dir name with
+  | none => pure (ms, true)
+  | some p =>
+    match strlcpyFits NAME_MAX1 name with
+    | none => pure ({ ms with path := p }, true)
+    | some n => pure ({ ms with path := p, name := n, flags := adjustSeen src dst ms.flags }, false)
+
 /-- `sb.st_mtim` of a successful `fstatat`. -/
 def statMtime : Res → Option Nat
   | .ok v => some v
@@ -221,7 +239,7 @@ def maildirMove (env : PEnv) (src dst : Maildir) (ms : MsgSt) : Prog (MsgSt × B
               pure (!isOk r)
             else pure err1)
           if err2 then pure (ms, true)
-          else messageSetFile ms dst.path dstname none
+          else messageSetFileMoved ms src.subdir dst.subdir dst.path dstname
     | _, _ => pure (ms, true)
 
 /-- `maildir_write(md, msg, env)`. -/
